@@ -8,7 +8,7 @@ export GOFLAGS=-mod=mod GOPROXY=off GOSUMDB=off
 wt=$(mktemp -d /tmp/verif-pres-XXXX)
 git -C /repo worktree add -q --detach "$wt/r" HEAD || exit 2
 trap 'git -C /repo worktree remove --force "$wt/r" >/dev/null 2>&1; rm -rf "$wt" /verif/.work/alt-*$(basename "$wt")*' EXIT
-git -C "$wt/r" apply "$dir/patch.diff" || { echo "PATCH-DOES-NOT-APPLY $dir"; exit 2; }
+git -C "$wt/r" apply "$dir/patch.diff" 2>/dev/null || git -C "$wt/r" apply --3way "$dir/patch.diff" >/dev/null 2>&1 || { echo "PATCH-DOES-NOT-APPLY $dir"; exit 2; }
 ( cd "$wt/r" && go build ./... ) || { echo "DOES-NOT-BUILD $dir"; exit 2; }
 if ( cd "$wt/r" && go test -vet=off -count=1 ./... 2>&1 | grep -q "^FAIL\|^---.*FAIL" ); then echo "BASELINE-TESTS-FAIL $dir"; fi
 for id in "$@"; do
